@@ -685,6 +685,7 @@ func runSession(c Case) (*sess, *sink, *source, Session) {
 			lib.Fatal("unknown mode %q", c.Mode)
 		}
 	}
+	baseG := runtime.NumGoroutine()
 	// the session body runs in its own goroutine so that a blocked call is observed, not suffered
 	done := make(chan struct{})
 	go func() {
@@ -695,6 +696,11 @@ func runSession(c Case) (*sess, *sink, *source, Session) {
 		}
 	}()
 	s.wait(done)
+	// let goroutines of the code under test that outlive the call (none, if Close waits) finish, so that whatever they
+	// still do is recorded in this session's log and not in the next one's
+	for i := 0; i < 300 && !s.blocked && runtime.NumGoroutine() > baseG; i++ {
+		time.Sleep(100 * time.Microsecond)
+	}
 	s.mu.Lock()
 	S.Ev = append([]Ev{}, s.ev...)
 	s.mu.Unlock()
